@@ -48,7 +48,7 @@ type call struct {
 }
 
 var callFns = []string{"HashToGroup", "EncodeToGroup", "HashToScalar", "E.Add", "E.Subtract", "E.Set", "E.Equal", "E.Multiply", "E.Decode", "E.DecodeUncompressed",
-	"S.Add", "S.Subtract", "S.Multiply", "S.Set", "S.Equal", "S.LessOrEqual", "S.Pow", "S.CSelect", "S.Decode", "Base", "NewElement", "Identity", "Order", "Random", "Base.Multiply",
+	"S.Add", "S.Subtract", "S.Multiply", "S.Set", "S.Equal", "S.LessOrEqual", "S.Pow", "S.CSelect", "S.Decode", "Base", "NewElement", "Identity", "Order", "Random", "Base.Multiply", "E.DecodeHex", "S.DecodeHex", "E.DecodeHex-bad", "S.DecodeHex-bad",
 	"HashToGroup", "HashToScalar", "EncodeToGroup"}
 
 type env struct {
@@ -126,6 +126,30 @@ func (ev *env) run(c call) []byte {
 		return []byte{byte(e.Equal(ei))}
 	case "E.Multiply":
 		return e.Multiply(si).Encode()
+	case "E.DecodeHex":
+		if err := e.DecodeHex(hex.EncodeToString(ev.encE[c.I%len(ev.encE)])); err != nil {
+			return []byte("error:" + err.Error())
+		}
+		return e.EncodeUncompressed()
+	case "S.DecodeHex":
+		if err := s.DecodeHex(hex.EncodeToString(ev.encS[c.I%len(ev.encS)])); err != nil {
+			return []byte("error:" + err.Error())
+		}
+		return s.Encode()
+	case "E.DecodeHex-bad": // error paths run concurrently too (malformed hex, odd length)
+		h := hex.EncodeToString(ev.encE[c.I%len(ev.encE)])
+		bad := []string{"zz" + h[2:], h[:len(h)-1], h + "0g"}[c.J%3]
+		if err := e.DecodeHex(bad); err == nil {
+			return []byte("accepted malformed hex")
+		}
+		return e.Encode()
+	case "S.DecodeHex-bad":
+		h := hex.EncodeToString(ev.encS[c.I%len(ev.encS)])
+		bad := []string{"zz" + h[2:], h[:len(h)-1], h + "0g"}[c.J%3]
+		if err := s.DecodeHex(bad); err == nil {
+			return []byte("accepted malformed hex")
+		}
+		return s.Encode()
 	case "Base.Multiply":
 		return secp256k1.Base().Multiply(si).Encode()
 	case "E.Decode":
@@ -296,7 +320,7 @@ var c16 = gen.Register(&gen.Check[caseC16]{
 		}
 		all := caseC16{E: []pt.Spec{g, {Base: pt.Base{Kind: "kg", K: 3}, Steps: []pt.Step{{Op: "dblsub"}}}}, S: []string{"05", gen.H(new(bigInt).Sub(ref.N, one))}, Msg: "00", Dst: hex.EncodeToString(bytes.Repeat([]byte{'x'}, 32)), DstLay: gen.Layout{Post: 1}}
 		var ord []int
-		for i, fn := range callFns[:25] {
+		for i, fn := range callFns[:29] {
 			all.Calls = append(all.Calls, call{Fn: fn, I: i % 2, J: (i + 1) % 2, Cond: uint64(i % 3)})
 			ord = append(ord, i)
 		}
